@@ -5,7 +5,9 @@
 (* Every step carries, for every queried label set, the verdict of the      *)
 (* implementation layer (impl, by), of the reference (ref, q = the alerts   *)
 (* that may be named as inhibitor) and the gap classes that explain a       *)
-(* difference.                                                              *)
+(* difference.  The library line (@@L) carries every rule with its optional *)
+(* name; the harness renders the rule set as the inhibit_rules section of a *)
+(* configuration file and loads it with the real config.Load.               *)
 EXTENDS MC_Inhibit
 
 CONSTANT HistLen
@@ -18,7 +20,7 @@ ASSUME PrintT("@@L " \o ToJson([ls |-> AlertLS, rules |-> RuleSets,
 Verdicts ==
   LET R == RuleSets[rs] IN
   { LET ls == AlertLS[q]
-        m  == MutesImplAt(R, scache', sindex', now', ls)
+        m  == MutesImplAt(Loaded(R), scache', sindex', now', ls)   \* what NewInhibitor keeps
         rf == InhibitedRefAt(R, prov', now', ls)
     IN [ls |-> q, impl |-> m.muted, by |-> m.by, rule |-> m.rule, ref |-> rf,
         q |-> QualifyingAt(R, prov', now', ls),
